@@ -30,6 +30,7 @@ ASSUMPTIONS = [
 ]
 MIN_NONTRIVIAL_FRACTION = 0.2
 RULE += " Added after the seeded rounds: 1/25 of the generated histories contain a burst of 1001..2050 spends (the audit log keeps the last 1000 transactions), each spend checked like any other."
+RULE += " The store's lock is replaced by the deadlock-detecting shim, so an operation that re-acquires the lock it holds is a finding (hang:self-deadlock) instead of a silent hang."
 
 CUR = ["ATP", "GTP", "NADH"]
 
@@ -121,6 +122,22 @@ def _where(exc):
 
 
 def judge(case):
+    # the store's lock is replaced by the deadlock-detecting shim: an operation that re-acquires the non-reentrant lock it holds would hang
+    # forever without using any CPU; the shim turns that into an exception ("any loop that pays a positive cost per step halts", "no operation raises")
+    import operon_ai.state.metabolism as met
+    from pbt.instruments.locks import LockShim, SelfDeadlock
+    shim = LockShim()
+    with shim.install(met):
+        try:
+            return _judge(case)
+        except SelfDeadlock as e:
+            out = Outcome()
+            out.nontrivial = True
+            out.fail("hang:self-deadlock", "a store operation never returns: %s" % e, {"ops": len(case["ops"])})
+            return out
+
+
+def _judge(case):
     from operon_ai.state.metabolism import EnergyType as ET, MetabolicState
     out = Outcome()
     et = [ET.ATP, ET.GTP, ET.NADH]
